@@ -68,6 +68,20 @@ theorem isAlign_stepOp (b : Bag) (op : Op) (hne : op ≠ .unalign) : (stepOp b o
   | renameRe ok names => simp only [stepOp]; split <;> rfl
   | setAlpha a => exact (setAlphabet_fields a b).2.2.2.1
   | revcompSeqs names => exact isAlign_reverseComplementSequences names b
+  | diffFirst =>
+    simp only [stepOp]
+    split
+    · rfl
+    · split
+      · rfl
+      · rename_i r hr; exact (sameShape_diffWithFirst hr).isAlign
+  | replaceMatch =>
+    simp only [stepOp]
+    split
+    · rfl
+    · split
+      · rfl
+      · rename_i r hr; exact (sameShape_replaceMatchChars hr).isAlign
   | add n s => exact isAlign_addSeqAs _ b n s
   | ignore p => rfl
   | clear => rfl
